@@ -960,7 +960,10 @@ impl TwoFloat {
             //          with another lookup table
 
             // x = y/2 + z
-            let y = libm::round(2.0 * self.hi());
+            // round the full double-double: rounding only the high word can leave |z| > 1/4
+            // (e.g. hi = k/2 + 1/4 with a low word pointing away from y/2), which trips the
+            // range assertion in expm1_quarter
+            let y = (2.0 * self).round().hi();
             let z = self - y / 2.0;
 
             // exp(z + y/2) = (1 + expm1(z)) exp(1/2)^y
